@@ -1,25 +1,25 @@
 SPECIFICATION Spec
 CONSTANTS
-  MaxBlocks = 2
+  MaxBlocks = 4
   MaxReqs = 2
-  Templates = {"o23", "jmp", "ret", "d3"}
-  PatchKinds = {"plain2", "loop", "bytes"}
+  Templates = {"o23", "ret"}
+  PatchKinds = {"plain2"}
   FnLayouts = {"none", "one"}
-  EndSyms = {TRUE, FALSE}
-  NoSyms = {FALSE}
-  AnnModes = {"none", "blk"}
+  EndSyms = {FALSE}
+  NoSyms = {FALSE, TRUE}
+  AnnModes = {"none"}
   WithProxyDel = TRUE
   CfiLayouts = {"none"}
   Isa = "x64"
   WithScopes = FALSE
   Fmts = {"elf"}
-  WholeOnly = FALSE
+  WholeOnly = TRUE
   Leads = {0}
   DropFnTables = {FALSE}
   ExtraData = {FALSE}
   Retargets = {FALSE}
   AlignOpts = {0}
-  Aliases = {FALSE}
+  Aliases = {TRUE}
   InsFns = {"none"}
   Emit = TRUE
 INVARIANT Inv
